@@ -9,6 +9,7 @@ import networkx as nx
 
 from .. import checkers, core, families as F, hx, instances as I, models, smt, xh
 from ..core import HarnessError, new_result
+from . import c09
 
 PID = "C11"
 LEVEL = "translation_validation"
@@ -174,6 +175,10 @@ def gen_tasks(tier, seed):
                         tasks.append({**base, "node_flow": nf, "kwargs": {**kw, "error_scaling": {v_: sc}}})
                         if cls == "kMinPathError":
                             tasks.append({**base, "node_flow": nf, "kwargs": {**{a_: b_ for a_, b_ in kw.items() if a_ != "k"}, "k": None, "error_scaling": {v_: sc}}})
+                            if v_ in better_:
+                                # distinct powers of two as node values: one path more or less changes the optimum
+                                pw = {v: 2 ** j for j, v in enumerate(sorted(G.nodes()))}
+                                tasks.append({**base, "node_flow": pw, "kwargs": {**{a_: b_ for a_, b_ in kw.items() if a_ != "k"}, "k": None, "error_scaling": {v_: sc}}})
             if cls == "kMinPathError":
                 # node lengths + length-dependent slack factors: every boundary in turn, so one falls between the route lengths
                 nlen = {v: rng.choice((1, 2, 3)) for v in G.nodes()}
